@@ -472,9 +472,19 @@ struct Driver
 		std::vector<int>& m = arr[ref[k]];
 		int n = (int)m.size();
 		if (nrefs(ref[k]) > 1 && wouldGrow(k, 2 * n + 1)) { step(); return; }  // keep stratum A's rule here too
-		int w = c.rng.below(5), i = c.rng.below(n);
+		int w = c.rng.below(6), i = c.rng.below(n);
 		bool atcap = a.length() == a.cap();
 		switch (w) {
+		case 5: {
+			int cnt = c.rng.range(1, n - i);
+			c.op(vf::fmt("h%d.append(&h%d[%d], %d)%s", k, k, i, cnt, atcap ? " (at capacity)" : ""));
+			c.count("self_append_pointer_into_own_storage");
+			std::vector<int> piece(m.begin() + i, m.begin() + i + cnt);
+			a.append(&a[i], cnt);
+			m.insert(m.end(), piece.begin(), piece.end());
+			verify("self-append-pointer");
+			break;
+		}
 		case 0: case 1:
 			c.op(vf::fmt("h%d<<h%d[%d]%s", k, k, i, atcap ? " (at capacity)" : ""));
 			c.count(atcap ? "self_append_at_capacity" : "self_append_spare");
